@@ -170,6 +170,10 @@ pub enum Op {
     ProbeDead,
     /// insert and remove a trivial source n times in a row (slot reuse, generation growth)
     Churn(u16),
+    /// 1100 messages at once on a channel
+    SendBurst(Sel),
+    /// LoopSignal::wakeup(): the next wait returns at once, with no event
+    Wakeup,
 }
 
 #[derive(Clone, Copy, Debug, PartialEq, Eq, Serialize, Deserialize, Hash)]
